@@ -165,7 +165,7 @@ func verifMain(prop string) {
 	defer pool.Close()
 	c.Rule = "one execution = the real tq.TransferQueue + adapterBase (channel/sync/time operations rewritten onto the controlled scheduler) driven by a producer (Add* then Wait), watcher consumers, a scripted batch client and a scripted transfer implementation; " +
 		"enumerated: every queue configuration of the space x every schedule with <= P preemptions (a preemption = running another thread, or letting virtual time pass, while the current thread is enabled; switches at blocking points and choices between ready select cases are free) x every environment script with <= D deviations from the nominal answer " +
-		"(batch call: 429+Retry-After / retriable / fatal / 4xx; per object: no action / per-object error / omitted / listed twice / expired action / extra unknown oid; upload source file absent(+Missing) / wrong size; adapter: retriable / retry-later / fatal / 422 / slow; adapter start failure). " +
+		"(batch call: 429+Retry-After / retriable / fatal / 4xx; per object: no action / per-object error / omitted / listed twice (two actions, two error entries, error then action, action then error) / expired action / extra unknown oid; upload source file absent(+Missing) / wrong size; adapter: retriable / retry-later / fatal / 422 / slow; adapter start failure). " +
 		"distinct_nontrivial = distinct (configuration, environment script) pairs explored; states = distinct (configuration, script, schedule length, outcome) classes; transitions = scheduling decisions executed"
 	c.Assumptions = []string{
 		"the batch client and the transfer implementation are scripted fakes behind the real BatchClient / transferImplementation interfaces; error values are built with the same constructors lfshttp uses (NewRetriableLaterError, NewRetriableError, NewFatalError, Wrap)",
